@@ -50,6 +50,11 @@ type templateChecker struct {
 	letVars  []string
 	forVars  []string
 	usedKeys []string
+
+	// letUseStart[i] is len(usedKeys) at the point letVars[i] was declared: only
+	// keys used from there on refer to that {let}; an earlier use of the same
+	// name is a use of the @param (or outer {let}) it shadows.
+	letUseStart []int
 }
 
 func newTemplateChecker(reg template.Registry, tpl template.Template) *templateChecker {
@@ -57,7 +62,7 @@ func newTemplateChecker(reg template.Registry, tpl template.Template) *templateC
 	for _, param := range tpl.Doc.Params {
 		paramNames = append(paramNames, param.Name)
 	}
-	return &templateChecker{reg, paramNames, nil, nil, nil}
+	return &templateChecker{reg, paramNames, nil, nil, nil, nil}
 }
 
 func (tc *templateChecker) checkTemplate(node ast.Node) {
@@ -68,11 +73,13 @@ func (tc *templateChecker) checkTemplate(node ast.Node) {
 		tc.checkLet(node.Name)
 		tc.recurse(node)
 		tc.letVars = append(tc.letVars, node.Name)
+		tc.letUseStart = append(tc.letUseStart, len(tc.usedKeys))
 		return
 	case *ast.LetContentNode:
 		tc.checkLet(node.Name)
 		tc.recurse(node)
 		tc.letVars = append(tc.letVars, node.Name)
+		tc.letUseStart = append(tc.letUseStart, len(tc.usedKeys))
 		return
 	case *ast.CallNode:
 		tc.checkCall(node)
@@ -189,8 +196,9 @@ func (tc *templateChecker) recurse(parent ast.ParentNode) {
 	// (this is necessary to handle shadowing of @params by {let} vars)
 	var letVarsGoingOutOfScope = tc.letVars[initialLetVars:]
 	var usedKeysToKeep, usedLets []string
-	for _, key := range tc.usedKeys[initialUsedKeys:] {
-		if contains(letVarsGoingOutOfScope, key) {
+	for i := initialUsedKeys; i < len(tc.usedKeys); i++ {
+		var key = tc.usedKeys[i]
+		if tc.usesLetFrom(initialLetVars, key, i) {
 			usedLets = append(usedLets, key)
 		} else {
 			usedKeysToKeep = append(usedKeysToKeep, key)
@@ -210,6 +218,19 @@ func (tc *templateChecker) recurse(parent ast.ParentNode) {
 
 	tc.usedKeys = append(tc.usedKeys[:initialUsedKeys], usedKeysToKeep...)
 	tc.letVars = tc.letVars[:initialLetVars]
+	tc.letUseStart = tc.letUseStart[:initialLetVars]
+}
+
+// usesLetFrom reports whether the key used at position use of usedKeys refers
+// to one of the {let} variables letVars[first:], i.e. has its name and was used
+// after its declaration.
+func (tc *templateChecker) usesLetFrom(first int, key string, use int) bool {
+	for i := first; i < len(tc.letVars); i++ {
+		if tc.letVars[i] == key && tc.letUseStart[i] <= use {
+			return true
+		}
+	}
+	return false
 }
 
 func (tc *templateChecker) visitKey(key string) {
